@@ -305,16 +305,16 @@ func genStructured(r *rand.Rand) ([]op, []string) {
 		default:
 			if r.Intn(100) < lossP {
 				g := 1 + r.Intn(3)
-				switch r.Intn(12) {
-				case 0:
+				switch k := r.Intn(80); {
+				case k < 6:
 					g = 5 + r.Intn(12) // around 7 / 14
-				case 1:
+				case k == 6:
 					g = 8185 + r.Intn(12)
 					bset["gap-8191"] = true
-				case 2:
+				case k == 7:
 					g = 32760 + r.Intn(12) // around 0x7FFE / 2^15
 					bset["gap-32766"] = true
-				case 3:
+				case k < 16:
 					g = 20 + r.Intn(300)
 				}
 				seq += int64(g)
